@@ -179,21 +179,24 @@ qlisttbl_t *qconfig_parse_file(qlisttbl_t *tbl, const char *filepath,
                 return NULL;
             }
 
-            // replace
-            // (the directive line can be longer than buf by the length of
-            // the directive itself)
-            char *directive = strndup(strp,
-                                      CONST_STRLEN(_INCLUDE_DIRECTIVE) + len);
-            if (directive == NULL) {
+            // replace this directive line (and only this one) with the data
+            size_t headlen = strp - str;
+            size_t inclen = strlen(incdata);
+            char *newstr = (char *) malloc(headlen + inclen + strlen(tmpp) + 1);
+            if (newstr == NULL) {
                 free(incdata);
                 free(str);
                 return NULL;
             }
-            strp = qstrreplace("sn", str, directive, incdata);
-            free(directive);
+            memcpy(newstr, str, headlen);
+            memcpy(newstr + headlen, incdata, inclen);
+            strcpy(newstr + headlen + inclen, tmpp);
             free(incdata);
+
+            // included data can have include directives too
+            strp = newstr + headlen;
             free(str);
-            str = strp;
+            str = newstr;
         } else {
             strp += CONST_STRLEN(_INCLUDE_DIRECTIVE);
         }
